@@ -28,6 +28,9 @@ CHECKS = {
  "C13": dict(level="model_checking", technique="layered symbolic execution of the MIR of gm-sm9 into z3: limbs, Montgomery mod p, Barrett mod N (lemma chain), Booth recoding (bit-vectors), tower formulas over an abstract field, G1/G2 group-law case analysis; ground check of all 2368 table entries",
              text="Fp/Fp2/Fp4/Fp12 add, sub, mul, sqr, neg, double, triple, halve, inverse (every zero-component branch) equal the tower Fp[w]/(w^12+2); mod-N add/sub/mul exact; Booth digits (w=5,7) recompose every scalar; G1 and G2 add/sub/double/neg/equality/affine/on-curve implement the group law in every Jacobian representation; fixed-base table exhaustive.",
              note="as C11; G2 formulas over an abstract Fp2; known finding: TwistPoint::point_equals (see known_findings.json).", design="§2 C13", engine="mirsmt"),
+ "C14": dict(level="other", technique="symbolic execution of the samplers' MIR with the CSPRNG as environment (arbitrary bytes), z3 bit-vector queries; key-generation data-flow with uninterpreted group layer",
+             text="random_u256 / sm9_random_u256 return exactly the big-endian integer of the accepted 32-byte draw, accept only values in [1, order-1] (n for SM2, N for SM9), never a rejected draw; all five key generators use the scalar drawn in that call and publish [k]G / [k]P1 / [k]P2. Freshness at the signing, encryption and exchange call sites is proved in C03/C05/C15/C09/C10/C17. The statistical half (no repeats, per-bit frequencies of the OS CSPRNG) is NOT decidable by this technique and is trusted.",
+             note="rand::thread_rng and the OS are the trusted base; at most two draws explored per call.", design="§2 C14", engine="mirsmt"),
  "C15": dict(level="model_checking", technique="symbolic execution of the MIR of Exchange::exchange_1..4 over bit-vectors with hash/group/mod-n layers as z3 uninterpreted functions; algebraic agreement as a ring identity",
              text="R = [r]G for a fresh scalar; x~ = 2^127 + (x mod 2^127); t = d + x~ r; V/U = [t](P_peer + [x~_peer]R_peer); K = KDF(xV||yV||Z_A||Z_B, klen) of the requested length; S_B/S_A use one-byte tags 0x02/0x03 over yV||SM3(xV||Z_A||Z_B||x1||y1||x2||y2); each step fails exactly when the peer's R is invalid, the shared point is infinity, or the confirmation value differs in any byte; both sides compute the same point.",
              note="layers uninterpreted; klen values listed in evidence; tamper detection modulo SM3 collision resistance; Annex example only in the replay reference.", design="§2 C15", engine="mirsmt"),
